@@ -104,7 +104,11 @@ func cmdVerify(args []string) {
 		os.WriteFile(*jsonOut, b, 0o644)
 	}
 	if workDirPath != "" {
-		os.RemoveAll(workDirPath)
+		if os.Getenv("GOVC_KEEPFILES") != "" {
+			fmt.Fprintln(os.Stderr, "kept solver files in", workDirPath)
+		} else {
+			os.RemoveAll(workDirPath)
+		}
 	}
 	if bad > 0 {
 		os.Exit(1)
